@@ -11,7 +11,7 @@ import time
 from . import common, ctx
 from .mm import ID_T, MM, P, base, lit, ref, strlit
 
-NAME_RE = re.compile(r"^([A-Za-z0-9_]+)-(True|False)-([0-9a-f]{64})\.json$")
+NAME_RE = re.compile(r"^(\w+)-(True|False)-([0-9a-f]{64})\.json$")
 RESPONSE_ERROR_T = lit([P("code", base("integer")), P("message", base("string")), P("data", ref("LSPObject"), optional=True)])
 
 
